@@ -7,6 +7,7 @@ import (
 	"fmt"
 	"io"
 	"log/slog"
+	"math"
 	"net/http"
 	"net/http/httptest"
 	"path"
@@ -556,11 +557,20 @@ func (c *cmafIngester) sendMediaSegments(ctx context.Context, nextSegNr, nowMS i
 		atoMS := int(c.cfg.getAvailabilityTimeOffsetS() * 1000)
 		for idx, rd := range c.repsData {
 			var se segEntries
-			// The first representation is used as reference for generating timeline entries
-			if idx == 0 {
+			var segTime int
+			_, inAsset := c.asset.Reps[rd.repID]
+			switch {
+			case idx == 0:
+				// The first representation is used as reference for generating timeline entries
 				refSegEntries = c.asset.generateTimelineEntries(rd.repID, wTimes, atoMS)
 				se = refSegEntries
-			} else {
+				segTime = int(se.lastTime())
+			case !inAsset && rd.contentType == "text":
+				// Generated time subtitles are not part of the asset. They follow the reference
+				// timeline converted to the subtitle timescale (as in the live MPD).
+				factor := float64(SUBS_TIME_TIMESCALE) / float64(refSegEntries.mediaTimescale)
+				segTime = int(math.Round(float64(refSegEntries.lastTime()) * factor))
+			default:
 				switch rd.contentType {
 				case "video", "text", "image":
 					se = c.asset.generateTimelineEntries(rd.repID, wTimes, atoMS)
@@ -569,8 +579,8 @@ func (c *cmafIngester) sendMediaSegments(ctx context.Context, nextSegNr, nowMS i
 				default:
 					return fmt.Errorf("unknown content type %s", rd.contentType)
 				}
+				segTime = int(se.lastTime())
 			}
-			segTime := int(se.lastTime())
 			segPart = replaceTimeOrNr(rd.mediaPattern, segTime)
 			segPath := fmt.Sprintf("%s/%d%s", rd.repID, segTime, rd.extension)
 			if c.streamsURLs {
